@@ -9,8 +9,13 @@ package c13
 //	pulled<=year-left  ... and <= what was left of the reward year when the cycle began, or
 //	                   <= min(burnout rate, rewards pool) once the schedule is over;
 //	withdrawn<=matured per validator rwcum_withdrawn <= the rewards that have matured for it under the
-//	                   interval rule (credits of interval j mature at height (j+2)*interval), and what it
-//	                   can still withdraw (rwcum_balance) does not exceed the rest;
+//	                   interval rule (credits are collected in numbered chunks of `interval` blocks; at every
+//	                   height that is a multiple of the interval the chunk two below the current one matures,
+//	                   once; on a chain started from a plain genesis credits of interval j mature at height
+//	                   (j+2)*interval), and what it can still withdraw (rwcum_balance) does not exceed the rest.
+//	                   A genesis that carries an exported reward state (sim.Params.PreRewards) continues the
+//	                   numbering of the exported chain: its chunks up to two below the one being filled at the
+//	                   export have matured, the last two mature at the first two maturity heights;
 //	withdraw-accounting in a block with successful WITHDRAW_REWARD transactions the rewards pool is
 //	                   debited by exactly what the signers are credited and what rwcum_withdrawn records;
 //	restart-pull       a twin restarted from a crash image at a generated height writes the same reward
@@ -69,11 +74,85 @@ type monitor struct {
 	interval int64
 	prev     *dlgrw.View
 	seenTx   map[[32]byte]bool
-	matureAt map[int64]map[string]*big.Int // height -> validator -> credits maturing there
+	recs     []sim.PreInterval             // chunk numbering records carried by the genesis (none: plain genesis)
+	chunks   map[int64]map[string]*big.Int // chunk index -> validator -> credited, not matured yet
+	firstNew int64                         // index of the first chunk this chain fills; chunks below came with the genesis
+	carried  bool                          // the genesis carries a reward state
 	matured  map[string]*big.Int           // validator -> matured so far (reference)
 	names    map[string]string
 	feats    map[string]int
 	maxOver  *big.Int
+}
+
+// chunkIndex numbers the chunk that collects the credits of height h: the numbering record in force
+// (the one with the greatest LastHeight <= h; {0, 0} when there is none) continues its LastIndex by
+// one chunk per `interval` blocks.
+func (m *monitor) chunkIndex(h int64) int64 {
+	rec, max := sim.PreInterval{}, int64(0)
+	for _, r := range m.recs {
+		if r.LastHeight > max && r.LastHeight <= h {
+			rec, max = r, r.LastHeight
+		}
+	}
+	return rec.LastIndex + (h-rec.LastHeight)/m.interval + 1
+}
+
+func (m *monitor) credit(index int64, val string, amt *big.Int) {
+	if m.chunks[index] == nil {
+		m.chunks[index] = map[string]*big.Int{}
+	}
+	m.chunks[index][val] = new(big.Int).Add(get(m.chunks[index], val), amt)
+}
+
+// importRewards initialises the reference from the reward state the genesis carries.
+func (m *monitor) importRewards(w *hist.World, pr *sim.PreRewards) {
+	m.feats["genesis-carries-reward-state"] = 1
+	m.carried = true
+	m.recs = append(m.recs, pr.Intervals...)
+	m.firstNew = m.chunkIndex(2) // rewards are first credited at height 2
+	current := m.firstNew - 1    // the chunk that was being filled at the export
+	nv := len(w.G.U.Vals)
+	addr := func(i int) string { return w.G.U.Vals[((i%nv)+nv)%nv].Key.Addr.String() }
+	first, last2 := map[string]*big.Int{}, map[string]*big.Int{}
+	for _, c := range pr.Chunks {
+		a, amt := addr(c.Val), mustBig(c.Amount)
+		m.feats["imported-chunks"]++
+		if c.Index <= current-2 {
+			m.matured[a] = new(big.Int).Add(get(m.matured, a), amt)
+		} else {
+			m.credit(c.Index, a, amt)
+			if amt.Sign() > 0 {
+				m.feats["imported-chunks-not-matured"]++
+			}
+			last2[a] = new(big.Int).Add(get(last2, a), amt)
+		}
+		if c.Index == 1 {
+			first[a] = amt
+		}
+	}
+	for a, x := range first {
+		// a validator that earned at the beginning of the exported chain and less than that in the two chunks before the export
+		if x.Cmp(get(last2, a)) > 0 {
+			m.feats["imported-first-chunk-exceeds-last-two"] = 1
+		}
+	}
+	for _, b := range pr.Withdrawn {
+		if mustBig(b.Amount).Sign() > 0 {
+			m.feats["imported-withdrawn-amounts"] = 1
+		}
+	}
+	// the application takes the year records over only when there is one per yearly share
+	if len(pr.Years) == len(m.s.Shares) && len(pr.Years) > 0 {
+		var closes []time.Time
+		var dist, till []*big.Int
+		for _, y := range pr.Years {
+			closes = append(closes, y.Close)
+			dist = append(dist, mustBig(y.Distributed))
+			till = append(till, mustBig(y.TillLastCycle))
+		}
+		m.s.Import(closes, dist, till)
+		m.feats["genesis-carries-reward-years"] = 1
+	}
 }
 
 func mustBig(s string) *big.Int {
@@ -94,7 +173,7 @@ func newMonitor(w *hist.World) *monitor {
 		s:        NewSched(p.RewardCycle, p.RewardEstSecs, p.RewardCloseWin, shares, mustBig(p.RewardBurnout)),
 		interval: p.RewardInterval,
 		seenTx:   map[[32]byte]bool{},
-		matureAt: map[int64]map[string]*big.Int{},
+		chunks:   map[int64]map[string]*big.Int{},
 		matured:  map[string]*big.Int{},
 		names:    map[string]string{},
 		feats:    map[string]int{},
@@ -105,6 +184,9 @@ func newMonitor(w *hist.World) *monitor {
 	}
 	for _, u := range w.G.U.Users {
 		m.names[u.Addr.String()] = u.Name
+	}
+	if p.PreRewards != nil {
+		m.importRewards(w, p.PreRewards)
 	}
 	m.prev = dlgrw.NewView(w.Primary().DumpMap())
 	return m
@@ -271,17 +353,19 @@ func (m *monitor) block(b *sim.Block, res *sim.BlockRes, dump map[string][]byte)
 	}
 
 	// ---- matured reference and withdrawals
+	cur := m.chunkIndex(h)
 	for a, d := range perVal {
-		mh := (h/m.interval + 2) * m.interval
-		if m.matureAt[mh] == nil {
-			m.matureAt[mh] = map[string]*big.Int{}
+		m.credit(cur, a, d)
+	}
+	if h%m.interval == 0 {
+		for a, d := range m.chunks[cur-2] {
+			m.matured[a] = new(big.Int).Add(get(m.matured, a), d)
+			if m.carried && cur-2 < m.firstNew && d.Sign() > 0 {
+				m.feats["imported-chunk-matured"]++
+			}
 		}
-		m.matureAt[mh][a] = new(big.Int).Add(get(m.matureAt[mh], a), d)
+		delete(m.chunks, cur-2) // a chunk matures once
 	}
-	for a, d := range m.matureAt[h] {
-		m.matured[a] = new(big.Int).Add(get(m.matured, a), d)
-	}
-	delete(m.matureAt, h)
 	cb, cw := v.CumBalance(), v.CumWithdrawn()
 	for _, a := range sortedKeys(cb, cw) {
 		mat := get(m.matured, a)
@@ -367,7 +451,8 @@ func rewardRecords(d map[string][]byte) map[string][]byte {
 // ---------------------------------------------------------------------------------------
 // execution
 
-func execute(h *run.H, c *Case, draw func(w *hist.World, m *monitor, i int) (hist.Step, bool)) (*outcome, map[string]int) {
+// atEnd, when given, runs on the live world after the last block (the generator exports the reward state there).
+func execute(h *run.H, c *Case, draw func(w *hist.World, m *monitor, i int) (hist.Step, bool), atEnd func(w *hist.World, m *monitor) *outcome) (*outcome, map[string]int) {
 	w, err := hist.NewWorld(c.Params, []sim.Role{{ValIdx: 0, IsWitness: false}})
 	if err != nil {
 		return &outcome{"harness", "setup", "cannot build world: " + err.Error()}, map[string]int{}
@@ -459,6 +544,11 @@ func execute(h *run.H, c *Case, draw func(w *hist.World, m *monitor, i int) (his
 			if m.s.Over {
 				m.feats["restart-after-schedule"]++
 			}
+		}
+	}
+	if atEnd != nil {
+		if o := atEnd(w, m); o != nil {
+			return o, m.feats
 		}
 	}
 	m.feats["blocks"] = int(w.C.Height)
@@ -870,16 +960,38 @@ func classify(f map[string]int, c *Case) (string, []string) {
 
 const rule = "generated genesis (1-7 validators with tied or distinct stakes, reward options, rewards pool funded / nearly empty / zero, delegation pool none / tiny / small / dominant) x block history with generated block times (gaps >= 1 s), proposers, absent signers, stake / unstake (power changes, validator removal), delegations, donations and reward withdrawals (whole, partial, boundary and hostile amounts, strangers as signers), executed on one replica plus a twin restarted from a crash image at a generated height; non-trivial = the history crosses at least one calculation-cycle boundary and rewards were paid in a block with an absent signer or to a non-empty delegation pool; distinct by trace hash"
 
-func runCase(rt *rapid.T, h *run.H, p sim.Params, profile string, tp *tempo, nb int, busyPct int, restartAt int64) {
-	c := &Case{Params: p, Profile: profile, RestartAt: restartAt}
+// fade makes one validator stop signing from a height on: it earned at the beginning of the
+// history and is idle at its end (offline, as far as the two-thirds rule lets it be absent).
+type fade struct {
+	val  int   // universe index
+	from int64 // first block whose last-commit it is missing from
+}
+
+type caseOpts struct {
+	nb, busyPct int
+	restartAt   int64
+	fade        *fade
+	atEnd       func(w *hist.World, m *monitor) *outcome
+	classes     []string // extra class labels
+}
+
+// runCase generates and judges one history; false = it ended in a failure.
+func runCase(rt *rapid.T, h *run.H, p sim.Params, profile string, tp *tempo, o caseOpts) {
+	c := &Case{Params: p, Profile: profile, RestartAt: o.restartAt}
 	u := hist.NewU(rt)
 	var g *hist.Gen
 	blocks := 0
+	if pr := p.PreRewards; pr != nil && len(pr.Years) == len(p.RewardYearShares) {
+		// the reward years of the exported chain go on
+		for _, y := range pr.Years {
+			tp.closes = append(tp.closes, y.Close.UTC())
+		}
+	}
 	out, feats := execute(h, c, func(w *hist.World, m *monitor, i int) (hist.Step, bool) {
 		if g == nil {
 			g = &hist.Gen{W: w, T: rt, Hostile: 3, Strange: 5, Kinds: hist.Profiles["rewards"], Excl: h.Excluded, Seen: map[string]int{}, TagsN: map[string]int{}}
 		}
-		if blocks >= nb {
+		if blocks >= o.nb {
 			return hist.Step{}, false
 		}
 		blocks++
@@ -898,16 +1010,67 @@ func runCase(rt *rapid.T, h *run.H, p sim.Params, profile string, tp *tempo, nb 
 		for _, hz := range tp.hazards(w.C, gap) {
 			m.feats["hazard:"+hz]++
 		}
-		txs := dlgrw.FilterTxs(h.Excluded, w, drawTxs(u, h, g, w, m, busyPct))
+		txs := dlgrw.FilterTxs(h.Excluded, w, drawTxs(u, h, g, w, m, o.busyPct))
 		spec := dlgrw.DrawEnv(u, []int64{1}, 3, txs)
 		spec.GapSecs = gap
+		if f := o.fade; f != nil && w.C.Height+1 >= f.from && w.C.Last != nil {
+			if i, _ := w.C.Last.GetByAddress(w.G.U.Vals[f.val].Key.Addr.Bytes()); i >= 0 {
+				spec.Absent = append([]int{i}, spec.Absent...)
+			}
+		}
 		return hist.BlockStep(spec, txs), true
-	})
+	}, o.atEnd)
 	nt, classes := classify(feats, c)
+	classes = append(classes, o.classes...)
 	h.Eval(nt, classes, summary(c, feats))
 	if out != nil {
 		h.Fail(rt, out.oracle, out.sig(), c, "%s", out.msg)
 	}
+}
+
+// exportedChain generates, runs and judges a first history from the plain genesis p and exports
+// its reward state at the end with the node's own export (what "olfullnode save_state" writes).
+// It returns the genesis description of a chain that starts from that export: same keys, options
+// and validators, the exported reward state, the rewards pool as the first chain left it, and a
+// genesis time after the first chain's last block. The description is complete: a replay of the
+// second history does not re-run the first.
+func exportedChain(rt *rapid.T, h *run.H, p sim.Params, profile string, tp *tempo, nb, busyPct int) sim.Params {
+	u := hist.NewU(rt)
+	var f *fade
+	if nv := len(p.ValPower); nv >= 4 && u.N(3, "fade") != 0 {
+		// keep the first chunk signed (heights < interval) and at least the last two chunks unsigned when the length allows
+		lo := int(p.RewardInterval)
+		hi := (nb/int(p.RewardInterval) - 1) * int(p.RewardInterval)
+		if hi < lo {
+			hi = lo
+		}
+		f = &fade{val: u.N(nv, "fadeval"), from: int64(u.Range(lo, hi, "fadefrom"))}
+	}
+	var pre *sim.PreRewards
+	var pool *big.Int
+	var last time.Time
+	runCase(rt, h, p, profile, tp, caseOpts{nb: nb, busyPct: busyPct, fade: f, classes: []string{"reward-state-exported-at-end"},
+		atEnd: func(w *hist.World, m *monitor) *outcome {
+			st, err := w.Primary().ExportRewards()
+			if err != nil {
+				return &outcome{"harness", "export", err.Error()}
+			}
+			pre, err = sim.PreRewardsFromState(st, w.G.U)
+			if err != nil {
+				return &outcome{"harness", "export", err.Error()}
+			}
+			pool = m.prev.Bal(dlgrw.RewardPool)
+			last = w.C.Time
+			return nil
+		}})
+	if pre == nil {
+		rt.Fatalf("the first chain ended without an export")
+	}
+	p2 := p
+	p2.PreRewards = pre
+	p2.RewardPoolFund = pool.String()
+	p2.GenesisUnix = last.Unix() + dlgrw.Pick(u, []int64{1, 17, 3600, day, 40 * day}, "exportgap")
+	return p2
 }
 
 // TestC13 uses reward options scaled so that every boundary falls inside 30-80 blocks.
@@ -922,13 +1085,22 @@ func TestC13(t *testing.T) {
 		scaledRewardOptions(u, &p)
 		shape := delegationShape(u, &p)
 		kind := dlgrw.Pick(u, []string{"fast", "slow", "slow", "mixed", "aimed", "aimed", "aimed"}, "tempo")
-		tp := &tempo{kind: kind, window: p.RewardCloseWin, cycle: p.RewardCycle, est: p.RewardEstSecs, avoid: h.Excluded}
+		newTempo := func() *tempo {
+			return &tempo{kind: kind, window: p.RewardCloseWin, cycle: p.RewardCycle, est: p.RewardEstSecs, avoid: h.Excluded}
+		}
 		nb := u.Range(12, maxBlocks, "nblocks")
 		restartAt := int64(0)
 		if u.N(5, "norestart") != 0 {
 			restartAt = int64(u.Range(1, nb-1, "restart"))
 		}
-		runCase(rt, h, p, "scaled-"+kind+"-deleg-"+shape, tp, nb, 60, restartAt)
+		profile := "scaled-" + kind + "-deleg-" + shape
+		if u.N(4, "carried") == 0 {
+			// the history starts from the exported reward state of a first chain
+			nb1 := u.Range(int(3*p.RewardInterval)+2, int(3*p.RewardInterval)+28, "nblocks1")
+			p = exportedChain(rt, h, p, profile+"-exported", newTempo(), nb1, 60)
+			profile += "-carried"
+		}
+		runCase(rt, h, p, profile, newTempo(), caseOpts{nb: nb, busyPct: 60, restartAt: restartAt})
 	})
 }
 
@@ -948,13 +1120,21 @@ func TestC13Devnet(t *testing.T) {
 		p.RewardPoolFund = dlgrw.Pick(u, []string{"0", "7", "1000000000000000000000000"}, "poolfund")
 		shape := delegationShape(u, &p)
 		kind := dlgrw.Pick(u, []string{"fast", "fast", "mixed", "aimed"}, "tempo")
-		tp := &tempo{kind: kind, window: p.RewardCloseWin, cycle: p.RewardCycle, est: p.RewardEstSecs, avoid: h.Excluded}
+		newTempo := func() *tempo {
+			return &tempo{kind: kind, window: p.RewardCloseWin, cycle: p.RewardCycle, est: p.RewardEstSecs, avoid: h.Excluded}
+		}
 		nb := u.Range(250, h.Scale(400, 600), "nblocks")
 		restartAt := int64(0)
 		if u.N(6, "norestart") != 0 {
 			restartAt = int64(u.Range(1, nb-1, "restart"))
 		}
-		runCase(rt, h, p, "devnet-"+kind+"-deleg-"+shape, tp, nb, 8, restartAt)
+		profile := "devnet-" + kind + "-deleg-" + shape
+		if u.N(4, "carried") == 0 && p.RewardInterval <= 5 {
+			nb1 := u.Range(20, 130, "nblocks1")
+			p = exportedChain(rt, h, p, profile+"-exported", newTempo(), nb1, 8)
+			profile += "-carried"
+		}
+		runCase(rt, h, p, profile, newTempo(), caseOpts{nb: nb, busyPct: 8, restartAt: restartAt})
 	})
 }
 
@@ -986,7 +1166,7 @@ func TestReplay(t *testing.T) {
 	}
 	h := run.Start(t, "C13")
 	defer h.Finish()
-	out, feats := execute(h, &c, nil)
+	out, feats := execute(h, &c, nil, nil)
 	t.Logf("features: %v", feats)
 	if out != nil {
 		h.Fail(t, out.oracle, out.sig(), &c, "%s", out.msg)
